@@ -54,7 +54,30 @@ func genSchema(r *Rng, o *Out) (*jsonapi.Schema, []stype) {
 		putType(s, typ)
 		ts = append(ts, stype{typ, backed})
 	}
+	if r.chance(1, 3) {
+		ts = append(ts, schemaWithPast(s, o))
+	}
 	return s, ts
+}
+
+// schemaWithPast: the schema served before it got its present shape - a type that is no
+// longer there was listed first and looked up, then removed, and another type was added, so
+// that every type sits at another position than when the schema was first queried while the
+// number of types is what it was. Returns the type that was added (part of the schema now).
+func schemaWithPast(s *jsonapi.Schema, o *Out) stype {
+	old := jsonapi.Type{Name: "zz-old", Attrs: map[string]jsonapi.Attr{"x": {Name: "x", Type: jsonapi.AttrTypeInt}}, Rels: map[string]jsonapi.Rel{}}
+	s.Types = append([]jsonapi.Type{old}, s.Types...)
+	for i := range s.Types {
+		_ = s.HasType(s.Types[i].Name)
+		_ = s.GetType(s.Types[i].Name)
+	}
+	_ = s.Check()
+	_ = s.Rels()
+	s.RemoveType("zz-old")
+	added := jsonapi.Type{Name: "zz-new", Attrs: map[string]jsonapi.Attr{"y": {Name: "y", Type: jsonapi.AttrTypeString}}, Rels: map[string]jsonapi.Rel{}}
+	_ = s.AddType(added)
+	o.stat("schema.with-past")
+	return stype{added, false}
 }
 
 // ---------- delegated decodes (exactly what the library asks encoding/json) ----------
@@ -974,6 +997,104 @@ func suiteLiterals(r *Rng, n int, thorough bool, o *Out) {
 			lit = genIntLit(r, k)
 		}
 		emitOne(name, lit)
+	}
+	// collections: every element is read on its own - what one element holds does not
+	// depend on its neighbours (members an element omits are zero, also when the element
+	// before it has them)
+	valid := map[int][]string{
+		jsonapi.AttrTypeString: {`"s1"`, `"s2"`, `""`}, jsonapi.AttrTypeInt: {"1", "-2", "0"}, jsonapi.AttrTypeInt8: {"7", "-8"},
+		jsonapi.AttrTypeUint16: {"9", "65535"}, jsonapi.AttrTypeBool: {"true", "false"},
+		jsonapi.AttrTypeTime: {`"2018-02-03T04:05:06Z"`, `"1999-12-31T23:59:59+01:00"`}, jsonapi.AttrTypeBytes: {`"aGVsbG8="`, `"AA=="`},
+	}
+	kindsUsed := []int{jsonapi.AttrTypeString, jsonapi.AttrTypeInt, jsonapi.AttrTypeInt8, jsonapi.AttrTypeUint16, jsonapi.AttrTypeBool, jsonapi.AttrTypeTime, jsonapi.AttrTypeBytes}
+	for c := 0; c < n/6+1; c++ {
+		ne := 2 + r.IntN(3)
+		type elem struct {
+			id    string
+			attrs map[string]string
+			rels  map[string]string
+		}
+		elems := make([]elem, ne)
+		texts := make([]string, ne)
+		for e := range elems {
+			el := elem{id: itoa(e + 1), attrs: map[string]string{}, rels: map[string]string{}}
+			var am, rm []string
+			for _, k := range kindsUsed {
+				if r.chance(1, 3) {
+					name := jsonapi.GetAttrTypeString(k, false)
+					if r.bool() {
+						name = "n" + name
+					}
+					lit := valid[k][r.IntN(len(valid[k]))]
+					el.attrs[name] = lit
+					am = append(am, jstr(name)+":"+lit)
+				}
+			}
+			for _, name := range []string{"one", "many"} {
+				if r.chance(1, 3) {
+					obj := `{"data":{"id":"x` + itoa(e) + `","type":"t"}}`
+					if name == "many" {
+						obj = `{"data":[{"id":"y` + itoa(e) + `","type":"t"},{"id":"z","type":"t"}]}`
+					}
+					el.rels[name] = obj
+					rm = append(rm, jstr(name)+":"+obj)
+				}
+			}
+			txt := `{"type":"t"`
+			if e == 0 || r.chance(3, 4) { // sometimes an element without id
+				txt += `,"id":` + jstr(el.id)
+			} else {
+				el.id = ""
+			}
+			if len(am) > 0 || r.bool() {
+				txt += `,"attributes":{` + strings.Join(am, ",") + `}`
+			}
+			if len(rm) > 0 || r.bool() {
+				txt += `,"relationships":{` + strings.Join(rm, ",") + `}`
+			}
+			texts[e] = txt + "}"
+			elems[e] = el
+		}
+		doc := []byte(`{"data":[` + strings.Join(texts, ",") + `]}`)
+		var d *jsonapi.Document
+		var err error
+		p, msg := guard(func() { d, err = jsonapi.UnmarshalDocument(doc, s) })
+		obsD, pvD := "err", "ok"
+		switch {
+		case p:
+			obsD, pvD = "panic", "FAIL:UnmarshalDocument panicked: "+msg
+		case err != nil || d == nil:
+			pvD = "FAIL:a collection of valid resources is rejected"
+		default:
+			obsD = "ok " + sxDocResult(d)
+			col, ok := d.Data.(jsonapi.Collection)
+			if !ok || col.Len() != ne {
+				pvD = "FAIL:the collection does not come back with its elements"
+				break
+			}
+			fresh := newSoft(typ)
+			for e := 0; e < ne && pvD == "ok"; e++ {
+				res := col.At(e)
+				if res.Get("id") != any(elems[e].id) {
+					pvD = fmt.Sprintf("FAIL:element %d has id %q, payload says %q", e, res.Get("id"), elems[e].id)
+				}
+				for _, f := range typ.Fields() {
+					if lit, ok := elems[e].attrs[f]; ok {
+						if m := faithful(typ.Attrs[f], lit, res.Get(f)); m != "" {
+							pvD = fmt.Sprintf("FAIL:element %d attribute %s: %s", e, f, m)
+						}
+					} else if obj, ok := elems[e].rels[f]; ok {
+						if m := linkageVerdict(res, f, typ.Rels[f], obj); m != "ok" {
+							pvD = fmt.Sprintf("%s (element %d, %s)", m, e, f)
+						}
+					} else if canonSx(res.Get(f)) != canonSx(fresh.Get(f)) {
+						pvD = fmt.Sprintf("FAIL:element %d: field %s is absent from the element but reads %s", e, f, canonSx(res.Get(f)))
+					}
+				}
+			}
+		}
+		o.stat("collection")
+		o.emit(lst("unm", "doc", ssx, sxDocSke(doc)), obsD, pvD)
 	}
 	// relationship linkage: exact IDs (repeats kept), linkage type = target type, re-marshal
 	relNames := []string{"one", "many", "one2", "one3", "many2"}
